@@ -235,19 +235,19 @@ Qed.
 
 (* ------------------------------------------------------------------------------------------- if-expression *)
 Lemma if_den : forall mc c mt t vt mf vf,
-  (cden mc = Some c \/ exists tc v, vden mc tc v /\ c = truth_u v /\ (tc = TStr \/ tc = TBool)) ->
+  (cden mc = Some c \/ exists tc v, vden mc tc v /\ c = truth_u v) ->
   vden mt t vt -> vden mf t vf ->
   vden (m_if d mc mt mf) t (match c with T => vt | _ => vf end).
 Proof.
   intros mc c mt t vt mf vf Hc [k1 [n1 [s1 [-> [H1 [T1 N1]]]]]] [k2 [n2 [s2 [-> [H2 [T2 N2]]]]]].
-  assert (O : oden d en mc c) by (destruct Hc as [Hc|[tc [v [Hv [-> _]]]]]; [left; exact Hc|right; eauto]).
+  assert (O : oden d en mc c) by (destruct Hc as [Hc|[tc [v [Hv ->]]]]; [left; exact Hc|right; eauto]).
   destruct (oden_ok _ _ _ _ O) as [E1 E2].
   pose proof (oden_test_sql d Hd en _ _ O) as S.
   unfold m_if. rewrite E1, E2. cbn [is_err orb mvty].
   set (c' := if is_boolm mc then mc else m_nonzero d mc) in *.
-  assert (C' : (if is_boolm mc then Some mc else match mc with MVal _ TStr _ _ => Some (m_nonzero d mc) | _ => None end) = Some c').
+  assert (C' : (if is_boolm mc then Some mc else match mc with MVal _ _ _ _ => Some (m_nonzero d mc) | _ => None end) = Some c').
   { unfold c'. destruct (is_boolm mc) eqn:B; [reflexivity|].
-    destruct Hc as [Hc|[tc [v [[k [n [s [-> _]]]] [_ [->| ->]]]]]]; [destruct (cden_boolm _ _ _ _ Hc) as [B' _]; congruence|reflexivity|discriminate B]. }
+    destruct Hc as [Hc|[tc [v [[k [n [s [-> _]]]] _]]]]; [destruct (cden_boolm _ _ _ _ Hc) as [B' _]; congruence|reflexivity]. }
   rewrite C'. replace (coerce_vty t t) with (Some t) by (destruct t; reflexivity).
   exists KExpr, (mnullable c' || n1 || n2), (QCase (getsql c') s1 s2). split; [reflexivity|].
   unfold C01Monad.ev in *. cbn [qeval]. rewrite S, H1, H2. unfold qcase. rewrite as_tv_of_tv, !enc_not_bad. cbn [orb].
